@@ -22,7 +22,9 @@ Correspondence (model executed by the Lean driver, `C19 <op>`):
 Everything goes through pyGAM's public API (PoissonGAM / GAM / PoissonDist methods and attributes).
 """
 import ast
+import contextlib
 import inspect
+import io
 import math
 import random
 import textwrap
@@ -148,7 +150,7 @@ def build_terms(pygam, mix, lam, ns):
     if mix == 's0p+l1':
         return s(0, n_splines=ns, lam=lam, basis='cp') + l(1, lam=lam), True
     if mix == 's1+te02':
-        return s(1, n_splines=ns, lam=lam) + te(0, 2, n_splines=[4, 3], lam=lam), True
+        return s(1, n_splines=ns, lam=lam) + te(0, 2, n_splines=[5, 4], lam=lam), True
     raise KeyError(mix)
 
 
@@ -197,6 +199,8 @@ def gen_data(rs, n, e, mix):
     eta = a + rs.uniform(0.3, 1.2) * np.sin(rs.uniform(2, 5) * X[:, 0]) + rs.uniform(-0.6, 0.6) * X[:, 1] \
         + rs.uniform(-0.3, 0.3) * X[:, 2]
     ee = np.ones(n) if e is None else e
+    # rates are counts per unit exposure: centre them so that the counts stay moderate whatever the magnitude of e
+    eta = eta - np.log(np.exp(np.mean(np.log(ee)))) + np.log(rs.uniform(1.0, 6.0))
     mean = np.minimum(ee * np.exp(eta), 1e6)
     y = rs.poisson(mean).astype(float)
     return X, y
@@ -359,7 +363,7 @@ def run_fit(ctx, pygam, lits, cases=None):
                      'and vs model kernel - sum gammaln(counts+1), 1e-10 of the sum of |terms|')
     max_iter = 40 if ctx.tier == 'quick' else 150
     if cases is None:
-        ncase = 60 if ctx.tier == 'quick' else 600
+        ncase = 110 if ctx.tier == 'quick' else 440
         cases = [make_case(ctx.seed, st, i, ctx.tier, lits) for i in range(ncase)]
     ops = ['C19 fit %d | %s | %s | %s' % (c['n'], _vec_q(c['y']), _opt_q(c['e']), _opt_q(c['w'])) for c in cases]
     outs = ctx.driver.run(ops)
@@ -528,7 +532,7 @@ def run_noexposure(ctx, pygam, lits, idxs=None):
     st = 'fit.noexposure'
     ctx.stream(st, 'PoissonGAM.fit / predict / loglikelihood with exposure omitted vs exposure = ones (1e-10)')
     max_iter = 40 if ctx.tier == 'quick' else 150
-    ncase = 10 if ctx.tier == 'quick' else 80
+    ncase = 22 if ctx.tier == 'quick' else 88
     idxs = range(ncase) if idxs is None else idxs
     for i in idxs:
         c = make_case(ctx.seed, st, i, ctx.tier, lits, force=dict(ek='none'))
@@ -591,7 +595,7 @@ def run_offset_glm(ctx, pygam, lits, idxs=None):
     ctx.stream(st, 'PoissonGAM(l(0)+l(1)).fit(X, y, exposure, weights) vs independent NumPy Newton solution of the l2-penalised '
                    'Poisson regression of the counts with offset log(e) (1e-6)')
     from pygam import l
-    ncase = 30 if ctx.tier == 'quick' else 300
+    ncase = 60 if ctx.tier == 'quick' else 400
     idxs = range(ncase) if idxs is None else idxs
     for i in idxs:
         c = make_case(ctx.seed, st, i, ctx.tier, lits, force=dict(mix='l0+l1'))
@@ -602,6 +606,9 @@ def run_offset_glm(ctx, pygam, lits, idxs=None):
         sig = case_sig(c)
         ctx.case(st, sig, nontrivial=c['ek'] not in ('none', 'ones'))
         e64, w64 = eff(c['e'], n), eff(c['w'], n)
+        if int(np.sum((c['y'] > 0) & (w64 > 0))) < 5:
+            ctx.count('offset-glm degenerate counts skipped', 1)
+            continue
         b, gn = newton_offset_glm(c['X'][:, :2], c['y'], e64, w64, c['lam'])
         if not (gn < 1e-7 and np.all(np.isfinite(b))):
             ctx.count('offset-glm oracle did not converge', 1)
@@ -632,7 +639,7 @@ def run_gridsearch(ctx, pygam, lits, idxs=None):
     st = 'gridsearch'
     ctx.stream(st, 'PoissonGAM.gridsearch(X,y,exposure,weights,lam=grid) vs GAM(poisson,log).gridsearch(X,y/e,weights=w*e): '
                    'chosen lam, coef_, scores (1e-8)')
-    ncase = 8 if ctx.tier == 'quick' else 60
+    ncase = 30 if ctx.tier == 'quick' else 120
     max_iter = 30 if ctx.tier == 'quick' else 100
     idxs = range(ncase) if idxs is None else idxs
     for i in idxs:
@@ -818,6 +825,12 @@ def run_etw_exact(ctx, pygam, lits):
 
 # --------------------------------------------------------------------------------------------
 def run(ctx):
+    # pyGAM prints 'did not converge' on stdout; keep the check's stdout for the verdict lines
+    with contextlib.redirect_stdout(io.StringIO()):
+        _run(ctx)
+
+
+def _run(ctx):
     pygam = common.import_pygam()
     lits = harvest_literals(pygam)
     ctx.extra['rule'] = ('cases = product-like sweep of exposure kind (none, ones, twos, integer, dyadic, float32 log-uniform, small, '
@@ -841,6 +854,11 @@ def run(ctx):
 
 def replay(ctx, rp):
     """re-execute the single failing case of a replay file on the current tree"""
+    with contextlib.redirect_stdout(io.StringIO()):
+        _replay(ctx, rp)
+
+
+def _replay(ctx, rp):
     pygam = common.import_pygam()
     lits = harvest_literals(pygam)
     case = rp.get('case', {})
@@ -857,4 +875,4 @@ def replay(ctx, rp):
     elif st == 'gridsearch' and 'idx' in case:
         run_gridsearch(ctx, pygam, lits, idxs=[case['idx']])
     else:
-        run(ctx)
+        _run(ctx)
